@@ -13,7 +13,7 @@ ASSUME = [
 def run(ctx):
     quick = ctx.tier == "quick"
     bounds = dict(maxargs=2 if quick else 3, maxlist=3)
-    known = load_known("C03")
+    known = dict(load_known("C03"))
     results = []
     tot = 0
     for u in ("expr", "meta"):
@@ -29,7 +29,7 @@ def run(ctx):
     slots = fr.text_vectors(ctx, "corpus/slots/vectors.json", "C03")
     results += fr.replay_and_judge(ctx, "slots", slots, None, shards=4)
     results += fr.replay_and_judge(ctx, "inter", fr.text_vectors(ctx, "corpus/inter/vectors.json", "C03"), None, shards=8)
-    st = fr.classify(ctx, results, known, accept_classes=("wrongrepl", "error"))
+    st = fr.classify(ctx, results, known, accept_classes=("wrongrepl", "error", "missed"))
     states, trans = fr.mc_counts(ctx)
     cov = dict(states=states, transitions=trans, traces_validated_against_impl=st["cases"],
                samples=[fr.short_sample(results[0]), fr.short_sample(results[-1])],
